@@ -36,7 +36,8 @@ pub const CREATE_PARTIAL: &str = "cancel/create-leaves-partial-blob";
 pub const DELETE_PARTIAL: &str = "cancel/delete-partially-applied";
 
 pub fn cancel_strategy() -> BoxedStrategy<CancelCase> {
-    let pre = GenParams { nkeys: 3, ts_span: 4, metas: 2, max_ops: 14, w_write: 44, w_delete: 10, w_switch: 16, w_wait: 8, w_reopen: 8, w_lifecycle: 10, ..Default::default() };
+    // (w_maint: filter off-load / free / fsync before the victim - a cancelled call may find off-loaded filter buffers)
+    let pre = GenParams { nkeys: 3, ts_span: 4, metas: 2, max_ops: 14, w_write: 44, w_delete: 10, w_switch: 16, w_wait: 8, w_reopen: 8, w_lifecycle: 10, w_maint: 8, ..Default::default() };
     let suf = GenParams { nkeys: 3, ts_span: 4, metas: 2, max_ops: 8, w_write: 60, w_delete: 20, w_switch: 0, w_wait: 10, w_reopen: 6, ..Default::default() };
     let vlen = prop_oneof![3 => 0u32..200, 2 => (0u8..2, -2i8..3).prop_map(|(t, d)| vlen_rel(t, d)), 2 => Just(100_000u32), 1 => Just(5000u32)];
     let victim = prop_oneof![
@@ -422,6 +423,98 @@ fn enumerated(thorough: bool) -> Vec<CancelCase> {
     out
 }
 
+/// Cancelled start-up: after a generated prefix the storage is closed, a new one is built on the directory with its own
+/// one-permit dump semaphore, `init` / `init_lazy` is polled k+1 times and dropped, then the same object is initialised again.
+#[derive(Clone, Debug, Serialize, Deserialize)]
+pub struct InitCase {
+    pub cfg: Cfg,
+    pub prefix: Vec<Op>,
+    pub k: u16,
+    pub lazy: bool,
+    pub remove_idx: bool,
+    pub suffix: Vec<Op>,
+}
+
+pub fn init_strategy() -> BoxedStrategy<InitCase> {
+    let pre = GenParams { nkeys: 3, ts_span: 4, metas: 2, max_ops: 16, w_write: 50, w_delete: 12, w_switch: 20, w_wait: 8, w_reopen: 0, w_lifecycle: 6, ..Default::default() };
+    let suf = GenParams { nkeys: 3, ts_span: 4, metas: 2, max_ops: 8, w_write: 50, w_delete: 20, w_switch: 14, w_wait: 10, w_reopen: 6, w_lifecycle: 8, ..Default::default() };
+    let cfg = (cfg_strategy(&[8, 33], true), prop::bool::weighted(0.6)).prop_map(|(mut c, current_thread)| {
+        c.allow_dup = true;
+        if current_thread {
+            c.rt_workers = 0;
+        }
+        c
+    });
+    (cfg, prop::collection::vec(op_strategy(&pre), 1..pre.max_ops), 0u16..16, any::<bool>(), any::<bool>(), prop::collection::vec(op_strategy(&suf), 0..suf.max_ops))
+        .prop_map(|(cfg, prefix, k, lazy, remove_idx, suffix)| InitCase { cfg, prefix, k, lazy, remove_idx, suffix })
+        .boxed()
+}
+
+pub fn run_init(c: &InitCase, dir: &Path, findings: &Findings) -> Result<CaseOut, Failure> {
+    let rt = c.cfg.runtime();
+    let group = pearl::verif::inflight_group_for_this_thread();
+    let nkeys = 3u8;
+    let res = rt.block_on(async {
+        let mut ex = Exec::new(c.cfg.clone(), dir.to_path_buf(), Checks { read: true, versions: true, ..Default::default() }, nkeys, 2, findings);
+        ex.start().await?;
+        for (i, op) in c.prefix.iter().enumerate() {
+            ex.apply(i, op).await?;
+        }
+        ex.wait_msgs().await?;
+        ex.close().await?;
+        ex.step = c.prefix.len();
+        ex.cur_op = format!("cancel(init lazy={}, k={})", c.lazy, c.k);
+        if c.remove_idx {
+            for (_, is_idx, p) in sut::list_files(dir) {
+                if is_idx {
+                    let _ = std::fs::remove_file(p);
+                }
+            }
+        }
+        let (s, info) = match sut::open_cancel_init(&c.cfg, dir, c.lazy, c.k as usize, &group).await {
+            Ok(x) => x,
+            Err(e) => return ex.fail("cancel/init/reinit-err", format!("init of the same object after a dropped init failed: {:#}", e)),
+        };
+        if info.permits_after_drop != 1 {
+            return ex.fail("cancel/init/dump-permit-leaked", format!("init dropped after {} polls: the dump semaphore (1 permit, shared between storages on one disk) has {} permits although nothing is in flight - the next init or index dump waits for ever", info.polls, info.permits_after_drop));
+        }
+        let mut labels: BTreeSet<String> = BTreeSet::new();
+        if info.dropped_pending {
+            labels.insert("init_dropped_pending".into());
+        }
+        ex.sut = Some(s);
+        ex.model.restart(c.lazy);
+        data_check(&mut ex, nkeys).await.map_err(|mut f| {
+            f.clause = format!("cancel/init/after-reinit/{}", f.clause);
+            f
+        })?;
+        for (j, op) in c.suffix.iter().enumerate() {
+            ex.apply(c.prefix.len() + 1 + j, op).await.map_err(|mut f| {
+                f.clause = format!("cancel/init/later-op/{}", f.clause);
+                f
+            })?;
+            data_check(&mut ex, nkeys).await?;
+        }
+        ex.wait_msgs().await?;
+        ex.reopen(false, false, &[]).await?;
+        if ex.s().corrupted_blobs_count() != 0 {
+            return ex.fail("cancel/init/blob-quarantined-at-restart", format!("corrupted_blobs_count = {}", ex.s().corrupted_blobs_count()));
+        }
+        data_check(&mut ex, nkeys).await?;
+        ex.close().await?;
+        for l in ex.labels.iter() {
+            labels.insert(l.to_string());
+        }
+        Ok(CaseOut { nontrivial: info.dropped_pending, labels, stats: ex.stats.clone(), known_hits: ex.known_hits.clone(), weight: 1 })
+    });
+    drop(rt);
+    res
+}
+
+fn sample_init(c: &InitCase) -> Value {
+    json!({"cfg": format!("keylen={} rt_workers={} bloom={:?}", c.cfg.keylen, c.cfg.rt_workers, c.cfg.bloom), "prefix": render_ops(&c.prefix), "victim": format!("init(lazy={}) dropped after {} polls, index files removed first: {}", c.lazy, c.k + 1, c.remove_idx), "suffix": render_ops(&c.suffix)})
+}
+
 /// Overlap phase: the next call is issued while a file operation of the dropped future is still queued.
 /// The runtime's blocking pool has one thread, which the harness occupies with a gate, so the order of pearl's
 /// file operations is owned by the check: gate, victim's queued operation, next call's operation.
@@ -615,6 +708,10 @@ pub fn run(ctx: &RunCtx) -> PropResult {
     run_generated(ctx, "cancel", ctx.tier.pick(4000, 50_000), cancel_strategy, runf, &sample, &mut report);
     let runf = |c: &CancelCase, d: &Path| run_cancel(c, d, &findings);
     run_enumerated(ctx, "cancel-k", enumerated(ctx.tier == Tier::Thorough), runf, &sample, &mut report);
+    let runf = |c: &InitCase, d: &Path| run_init(c, d, &findings);
+    run_replays::<InitCase, _>(ctx, "cancel-init", &ctx.verif_dir.join("replays").join("C14"), runf, &mut report);
+    let runf = |c: &InitCase, d: &Path| run_init(c, d, &findings);
+    run_generated(ctx, "cancel-init", ctx.tier.pick(1500, 15_000), init_strategy, runf, &sample_init, &mut report);
     let runf = |c: &OverlapCase, d: &Path| run_overlap(c, d, &findings);
     run_replays::<OverlapCase, _>(ctx, "cancel-overlap", &ctx.verif_dir.join("replays").join("C14"), runf, &mut report);
     let runf = |c: &OverlapCase, d: &Path| run_overlap(c, d, &findings);
@@ -622,7 +719,7 @@ pub fn run(ctx: &RunCtx) -> PropResult {
     PropResult {
         report,
         level: "fault_enumeration",
-        rule: "A generated history prefix (active blob fresh or reopened), then one victim call (write of 0-200 B / around 4 KiB / 5 000 B / 100 000 B with or without meta, delete with either only_if value over 0-3 closed blobs holding the key, try_close/create/restore_active_blob, fsyncdata) polled with a flag waker: it is re-polled only after its waker fired and dropped after k resumptions (k 0..13), on the current-thread runtime (every file operation is a suspension point) and the multi-thread runtime. The harness then waits for the blocking closures that future had submitted (per-thread H4 counter) and for the background queue. Oracle: all read/contains/read_all*/read_with answers for all keys equal the model with the victim applied, or the model with it not applied (one choice; a call that completed with Ok must be applied, with Err must not); generated later writes/deletes succeed and keep matching that world; a switch from not-applied to applied is accepted only at a restart; after the final restart (indexes kept or removed) corrupted_blobs_count is 0, every blob file parses completely with the harness parser and passes validate_blob. An enumerated phase runs every victim kind x every k x both runtimes x fresh/reopened active blob. A third phase (cancel-overlap) removes that wait: the runtime's blocking pool has ONE thread which the harness occupies with a gate, a write is polled once (its file operation is queued behind the gate) and dropped, the next write is started at once (its operation queues behind the victim's), then the gate opens; 1-4 rounds with value sizes on both sides of the in-place / background thresholds, both runtimes, also un-gated with 1-4 polls. Oracle: every acknowledged write reads back exactly, a dropped write reads NotFound or exactly its bytes, in the session and after a restart without index files; every blob file parses completely (harness parser, data checksums) and nothing is quarantined. Non-trivial = the future was dropped while pending after >=1 resumption (cancel phases); two file operations were queued behind the gate at the overlap (cancel-overlap). distinct = FNV hash of the serialized case.".into(),
+        rule: "A generated history prefix (active blob fresh or reopened), then one victim call (write of 0-200 B / around 4 KiB / 5 000 B / 100 000 B with or without meta, delete with either only_if value over 0-3 closed blobs holding the key, try_close/create/restore_active_blob, fsyncdata) polled with a flag waker: it is re-polled only after its waker fired and dropped after k resumptions (k 0..13), on the current-thread runtime (every file operation is a suspension point) and the multi-thread runtime. The harness then waits for the blocking closures that future had submitted (per-thread H4 counter) and for the background queue. Oracle: all read/contains/read_all*/read_with answers for all keys equal the model with the victim applied, or the model with it not applied (one choice; a call that completed with Ok must be applied, with Err must not); generated later writes/deletes succeed and keep matching that world; a switch from not-applied to applied is accepted only at a restart; after the final restart (indexes kept or removed) corrupted_blobs_count is 0, every blob file parses completely with the harness parser and passes validate_blob. An enumerated phase runs every victim kind x every k x both runtimes x fresh/reopened active blob. The prefix may off-load filter buffers, free resources and sync, so that a cancelled call can meet off-loaded filters. A phase cancel-init closes the storage after a generated prefix (index files kept or removed), builds a new one with its own one-permit dump semaphore, polls init / init_lazy 1-16 times, drops it, requires the permit to be back once nothing is in flight (a lost permit blocks every later init and index dump on that disk), initialises the same object again and judges all data, later operations and a final restart against the model. A third phase (cancel-overlap) removes that wait: the runtime's blocking pool has ONE thread which the harness occupies with a gate, a write is polled once (its file operation is queued behind the gate) and dropped, the next write is started at once (its operation queues behind the victim's), then the gate opens; 1-4 rounds with value sizes on both sides of the in-place / background thresholds, both runtimes, also un-gated with 1-4 polls. Oracle: every acknowledged write reads back exactly, a dropped write reads NotFound or exactly its bytes, in the session and after a restart without index files; every blob file parses completely (harness parser, data checksums) and nothing is quarantined. Non-trivial = the future was dropped while pending after >=1 resumption (cancel phases); two file operations were queued behind the gate at the overlap (cancel-overlap). distinct = FNV hash of the serialized case.".into(),
         assumptions: {
             let mut a = common_assumptions();
             a.push("suspension points are the ones the runtime produces: on the multi-thread runtime small file operations run in place and cannot be interrupted".into());
@@ -632,6 +729,10 @@ pub fn run(ctx: &RunCtx) -> PropResult {
 }
 
 pub fn replay_other(phase: &str, case: &Value, dir: &Path, findings: &Findings) -> Option<Result<CaseOut, Failure>> {
+    if phase == "cancel-init" {
+        let runf = |c: &InitCase, d: &Path| run_init(c, d, findings);
+        return serde_json::from_value::<InitCase>(case.clone()).ok().map(|c| guarded(&c, dir, &runf));
+    }
     if phase == "cancel-overlap" {
         let runf = |c: &OverlapCase, d: &Path| run_overlap(c, d, findings);
         return serde_json::from_value::<OverlapCase>(case.clone()).ok().map(|c| guarded(&c, dir, &runf));
